@@ -287,7 +287,7 @@ impl<'a> WalStoragePerTable<'a> {
         wal: &mut Wal,
         table_id: u32,
     ) -> Result<u32> {
-        let dirty = dirty_tracker.drain_for_table(table_id);
+        let dirty = dirty_tracker.drain_for_table_with_header(table_id);
         if dirty.is_empty() {
             return Ok(0);
         }
